@@ -10,7 +10,7 @@ SLACK = 1e-3
 
 class Call(object):
   __slots__ = ('id', 'method', 'args', 'timeout', 'eff_timeout', 't', 'ar', 'inner',
-               'completions', 'first', 'arrivals', 'spec', 'issue_step', 'done_note',
+               'completions', 'caller_sets', 'first', 'arrivals', 'spec', 'issue_step', 'done_note',
                'before_open', 'extra')
 
   def __init__(self, cid, method, args, timeout, spec):
@@ -23,6 +23,7 @@ class Call(object):
     self.ar = None
     self.inner = None
     self.completions = []     # (time, 'value'|'exc', obj) per set/set_exception on inner
+    self.caller_sets = []     # same, on the AsyncResult the caller holds when it is a different object
     self.first = None         # (time, kind, obj, note seq) as seen by the caller's rawlink
     self.arrivals = []        # (time, where) stub/server arrivals
     self.spec = spec
@@ -34,6 +35,17 @@ class Call(object):
   @property
   def done(self):
     return self.first is not None
+
+  def caller_done(self):
+    """(time, kind, obj) of the first completion visible to the caller, taken
+    synchronously at set() time when the caller's result is instrumented."""
+    if self.caller_sets:
+      return self.caller_sets[0]
+    if self.ar is not None and self.ar is self.inner and self.completions:
+      return self.completions[0]
+    if self.first is not None:
+      return self.first[:3]
+    return None
 
   def outcome(self):
     if self.first is None:
@@ -59,17 +71,30 @@ class CallTracker(object):
 
     class CountingAsyncResult(AsyncResult):
       _call = None
+      _outer = None
 
       def set(self, value=None):
         c = self._call
         if c is not None:
           c.completions.append((CLOCK.now, 'value', value))
+          if c.ar is None or c.ar is self:
+            tracker._mark(c)
+        o = self._outer
+        if o is not None:
+          o.caller_sets.append((CLOCK.now, 'value', value))
+          tracker._mark(o)
         return AsyncResult.set(self, value)
 
       def set_exception(self, exception, exc_info=None):
         c = self._call
         if c is not None:
           c.completions.append((CLOCK.now, 'exc', exception))
+          if c.ar is None or c.ar is self:
+            tracker._mark(c)
+        o = self._outer
+        if o is not None:
+          o.caller_sets.append((CLOCK.now, 'exc', exception))
+          tracker._mark(o)
         return AsyncResult.set_exception(self, exception, exc_info)
 
     sd.AsyncResult = CountingAsyncResult
@@ -83,8 +108,20 @@ class CallTracker(object):
       if c is not None and isinstance(ar, CountingAsyncResult):
         ar._call = c
         c.inner = ar
+        c.extra['open_wait'] = CLOCK.now - start_time
       return ar
     sd.MessageDispatcher._DispatchMethod = _DispatchMethod
+
+  def _mark(self, c):
+    """Order the first completion against network sends (C12)."""
+    if 'done_seq' not in c.extra:
+      from sim.net import Net
+      net = Net.INSTANCE
+      if net is not None:
+        net.seq += 1
+        c.extra['done_seq'] = net.seq
+      if c.before_open and 'open_wait_start' in c.extra:
+        pass
 
   def id_from_args(self, args, kwargs):
     if args:
@@ -93,7 +130,7 @@ class CallTracker(object):
       return next(iter(kwargs.values()))
     return None
 
-  def issue(self, dispatcher, cid, method, args, timeout=None, spec=None, kwargs=None):
+  def issue(self, dispatcher, cid, method, args, timeout=None, spec=None, kwargs=None, fn=None):
     c = Call(cid, method, args, timeout, spec)
     self.calls[cid] = c
     self.order.append(c)
@@ -102,7 +139,10 @@ class CallTracker(object):
     c.eff_timeout = timeout or self.default_timeout
     self.loop.note('call.issue', '%s T=%s' % (cid, timeout))
     try:
-      c.ar = dispatcher.DispatchMethodCall(method, args, kwargs or {}, timeout=timeout)
+      if fn is not None:
+        c.ar = fn()
+      else:
+        c.ar = dispatcher.DispatchMethodCall(method, args, kwargs or {}, timeout=timeout)
     except Exception as e:
       c.extra['dispatch_raised'] = e
       c.first = (CLOCK.now, 'exc', e, 0)
@@ -110,6 +150,8 @@ class CallTracker(object):
     if c.inner is None:
       c.before_open = True
       REC.probe('call_before_open')
+    if c.ar is not c.inner and isinstance(c.ar, self.Counting) and c.ar._call is None:
+      c.ar._outer = c
 
     def on_done(ar, c=c):
       if c.first is None:
@@ -135,6 +177,10 @@ class CallTracker(object):
         REC.violation(prop, 'completed_twice',
                       'call %s completed %d times: %s' % (c.id, n, kinds),
                       {'second': _kind_name(c.completions[1])})
+      if len(c.caller_sets) > 1:
+        REC.violation(prop, 'completed_twice',
+                      'the result held by the caller of %s was set %d times' % (c.id, len(c.caller_sets)),
+                      {'second': _kind_name(c.caller_sets[1]), 'outer': True})
       if c.first is not None and c.ar is not None:
         # the caller-visible outcome must still be what it first saw
         _, kind, obj, _ = c.first
